@@ -1,6 +1,7 @@
 #!/usr/bin/env python3
-"""Re-run, for every seeded change under /verif/seeded, the checks named in its meta.json (at least the
-check of the property it breaks), update meta.json and write seeded/README.md."""
+"""Re-run, for every seeded change under /verif/seeded (or only those whose directory name contains one of the
+given substrings), the checks named in its meta.json (--fast: only the check of the property it breaks), update
+meta.json and write seeded/README.md."""
 import json, os, subprocess, sys, glob
 rows = []
 for d in sorted(glob.glob("/verif/seeded/*/")):
@@ -12,9 +13,11 @@ for d in sorted(glob.glob("/verif/seeded/*/")):
     checks = sorted(set([pid] + list(meta.get("detection", {}).keys())))
     if "--fast" in sys.argv:
         checks = [pid]
-    r = subprocess.run(["python3", "/verif/lib/tryseed.py", os.path.join(d, "patch.diff")] + checks, capture_output=True, text=True)
+    only = [a for a in sys.argv[1:] if not a.startswith("--")]
+    rerun = not only or any(o in d for o in only)
+    r = subprocess.run(["python3", "/verif/lib/tryseed.py", os.path.join(d, "patch.diff")] + checks, capture_output=True, text=True) if rerun else None
     det = meta.get("detection", {})
-    for l in r.stdout.splitlines():
+    for l in (r.stdout.splitlines() if r else []):
         w = l.split()
         if len(w) > 1 and w[0].startswith("C") and w[1] in ("DETECTED", "missed", "tool-error"):
             det[w[0]] = {"result": w[1], "tier": "quick", "line": l[:300]}
